@@ -65,6 +65,7 @@ type c11Case struct {
 	Fault     string `json:"fault"`
 	Variant   string `json:"variant"` // panic value kind / payload / frame variant
 	Godebug   string `json:"godebug"` // GODEBUG of the child (default panicnil=0)
+	Slow      int    `json:"slow"`    // re-run under load: every deadline of the scenario is multiplied by 1+slow
 }
 
 type childObs struct {
@@ -98,11 +99,31 @@ type c11Obs struct {
 	Ms        int64     `json:"ms"`
 }
 
-const (
+var (
 	clientTimeout = 2 * time.Second
 	callGuard     = 7 * time.Second
 	childDeadline = 40 * time.Second
+	enterWait     = 4 * time.Second
+	callerTimeout = 3 * time.Second
 )
+
+// slowDown stretches every deadline of a scenario (a re-run of a case whose only symptom was a timeout)
+func slowDown(k int) {
+	if k < 0 {
+		// self-test of the driver's retry path: deadlines nobody can meet
+		clientTimeout = time.Millisecond
+		return
+	}
+	if k == 0 {
+		return
+	}
+	f := time.Duration(1 + k)
+	clientTimeout *= f
+	callGuard *= f
+	childDeadline *= f
+	enterWait *= f
+	callerTimeout *= f
+}
 
 // ---------------------------------------------------------------- parent
 
@@ -147,9 +168,13 @@ func runParent(line []byte, out *json.Encoder) error {
 		return err
 	}
 	hvlib.Begin(c.ID)
+	deadline := childDeadline
+	if c.Slow > 0 {
+		deadline *= time.Duration(1 + c.Slow)
+	}
 	t0 := time.Now()
 	o := c11Obs{ID: c.ID, Cell: c.Cell, Variant: c.Variant}
-	ctx, cancel := context.WithTimeout(context.Background(), childDeadline)
+	ctx, cancel := context.WithTimeout(context.Background(), deadline)
 	defer cancel()
 	cmd := exec.CommandContext(ctx, os.Args[0], "-child", string(line))
 	gd := c.Godebug
@@ -204,7 +229,7 @@ func main() {
 		childMain([]byte(os.Args[2]))
 		return
 	}
-	hvlib.CaseTimeout = childDeadline + 20*time.Second
+	hvlib.CaseTimeout = 8*childDeadline + 20*time.Second
 	hvlib.Main(runParent)
 }
 
@@ -236,6 +261,7 @@ func childMain(line []byte) {
 		fmt.Fprintln(os.Stderr, "c11 child: bad case:", err)
 		os.Exit(3)
 	}
+	slowDown(c.Slow)
 	go func() {
 		time.Sleep(childDeadline - 5*time.Second)
 		note("child watchdog: scenario did not finish")
@@ -648,7 +674,7 @@ func waitEntered(ch chan string, n int, what string) bool {
 	for i := 0; i < n; i++ {
 		select {
 		case <-ch:
-		case <-time.After(4 * time.Second):
+		case <-time.After(enterWait):
 			note("in-flight call %s did not reach its function", what)
 			return false
 		}
@@ -1386,7 +1412,7 @@ func scenarioProvider(c *c11Case) error {
 		return err
 	}
 	caller := reverse.NewCaller(s.service)
-	caller.Timeout = 3 * time.Second
+	caller.Timeout = callerTimeout
 	p := rpc.NewClient(s.url)
 	provider := reverse.NewProvider(p, "1")
 	pEntered := make(chan string, 4)
